@@ -79,6 +79,12 @@ check("C04", "exploration",
       "model-based property testing (rapid) in virtual time + randomised real-thread stress under -race with value / exactly-once / leak oracles",
       "DESIGN.md §4 C04")
 
+check("C02", "exploration",
+      "The ring queue is checked as a state machine against a slice model (plus an exhaustive boundary enumeration for sizes 1-9 and a multi-producer run under -race); on the real runtime bursts sized around every growth boundary from several senders into a blocked target, with kills inserted mid-burst, are judged by per-sender order / kill-overtaking invariants, and stash scripts by a queue+stash reference model.",
+      "Sampling, except the ring boundary enumeration (exhaustive for sizes 1-9). Concurrent-sender cases rely on the Go scheduler for interleavings; the invariants hold on all of them.",
+      "model-based property testing (rapid state machine + reference models) and history invariants in virtual time",
+      "DESIGN.md §4 C02")
+
 NOT_YET = {}
 
 def main():
